@@ -1,2 +1,247 @@
+//! C14 — CL03 blind issuance works for every hidden-attribute set and is gated.
+
+use crate::clutil::*;
 use crate::common::*;
-pub fn scenarios(_ctx: &Ctx) -> Vec<Scenario> { vec![] }
+use rug::Integer;
+use serde_json::{json, Value};
+use zkryptium::cl03::commitment::CL03Commitment;
+use zkryptium::cl03::keys::CL03CommitmentPublicKey;
+use zkryptium::schemes::algorithms::CL03;
+use zkryptium::schemes::generics::{BlindSignature, Commitment, ZKPoK};
+use zkryptium::utils::message::cl03_message::CL03Message;
+
+type Zk<C> = ZKPoK<CL03<C>>;
+
+struct Run<'a, C: Cs> {
+    st: &'a Setup<C>,
+    n: usize,
+    u: Vec<usize>,
+    msgs: Vec<CL03Message>,
+    commitment: Commitment<CL03<C>>,
+    trusted: Option<(CL03Commitment, &'a CL03CommitmentPublicKey)>,
+    zk: Zk<C>,
+}
+
+impl<'a, C: Cs> Run<'a, C> {
+    fn verify(&self, zk: &Zk<C>, c: &CL03Commitment, u: &[usize]) -> bool {
+        let bases = self.st.bases_n(self.n);
+        zk.verify_proof(c, self.trusted.as_ref().map(|t| &t.0), self.st.pk(), &bases, self.trusted.as_ref().map(|t| t.1), u)
+    }
+    fn revealed(&self) -> (Vec<usize>, Vec<CL03Message>) {
+        let idx: Vec<usize> = (0..self.n).filter(|i| !self.u.contains(i)).collect();
+        let m = idx.iter().map(|&i| self.msgs[i].clone()).collect();
+        (idx, m)
+    }
+    fn blind_sign(&self, zk: &Zk<C>, c: &CL03Commitment, u: &[usize]) -> BlindSignature<CL03<C>> {
+        let bases = self.st.bases_n(self.n);
+        let (ri, rm) = self.revealed();
+        BlindSignature::<CL03<C>>::blind_sign(
+            self.st.pk(), self.st.sk(), &bases, zk, Some(&rm), c,
+            self.trusted.as_ref().map(|t| &t.0), self.trusted.as_ref().map(|t| t.1), u, Some(&ri),
+        )
+    }
+}
+
+fn issuance<C: Cs>(ctx: &Ctx, st: &Setup<C>, own: Option<&CL03CommitmentPublicKey>, r: &mut impl rand::RngCore, n: usize, u: Vec<usize>, tamper: bool) {
+    let bases = st.bases_n(n);
+    let mix = rand_range(r, 4);
+    let msgs = attributes::<C>(r, n, mix);
+    let case = format!("{}/n{}/U={:?}/{}", C::NAME, n, u, if own.is_some() { "trusted" } else { "plain" });
+    ctx.distinct(&case);
+    let commitment = Commitment::<CL03<C>>::commit_with_pk(&msgs, st.pk(), &bases, Some(&u));
+    let trusted = own.map(|ck| {
+        let ckn = ck;
+        (Commitment::<CL03<C>>::commit_with_commitment_pk(&msgs, ckn, Some(&u)).cl03Commitment().clone(), ckn)
+    });
+    let zk = ctx.call("ZKPoK::generate_proof", &case, None, || {
+        Ok::<_, ()>(Zk::<C>::generate_proof(&msgs, commitment.cl03Commitment(), trusted.as_ref().map(|t| &t.0), st.pk(), &bases, trusted.as_ref().map(|t| t.1), &u))
+    });
+    let Some(zk) = zk.value else {
+        ctx.violation("C14:generate_proof-panicked", json!({"case":case,"outcome":zk.outcome.short()}));
+        return;
+    };
+    let run = Run { st, n, u: u.clone(), msgs: msgs.clone(), commitment, trusted, zk };
+    let c = run.commitment.cl03Commitment().clone();
+    // ---------------- positive
+    let ok = ctx.call("ZKPoK::verify_proof", &case, None, || Ok::<_, ()>(run.verify(&run.zk, &c, &u)));
+    if ok.value != Some(true) {
+        ctx.violation("C14:honest-proof-rejected", json!({"case":case,"hidden":u,"n":n,"outcome":format!("{:?}/{}", ok.value, ok.outcome.short())}));
+        return;
+    }
+    let bs = ctx.call("blind_sign", &case, None, || Ok::<_, ()>(run.blind_sign(&run.zk, &c, &u)));
+    let Some(bsig) = bs.value else {
+        ctx.violation("C14:blind_sign-refused-honest-request", json!({"case":case,"outcome":bs.outcome.short()}));
+        return;
+    };
+    let sig = ctx.call("unblind_sign", &case, None, || Ok::<_, ()>(bsig.unblind_sign(&run.commitment))).value;
+    match &sig {
+        Some(s) if s.verify_multiattr(st.pk(), &bases, &msgs) => {}
+        _ => ctx.violation("C14:unblinded-signature-rejected", json!({"case":case})),
+    }
+    // re-issuing after changing a revealed attribute
+    let (ri, rm) = run.revealed();
+    if !ri.is_empty() {
+        let k = rand_range(r, ri.len());
+        let mut rm2 = rm.clone();
+        rm2[k] = attribute::<C>(r, 4);
+        if rm2[k].value != rm[k].value {
+            let up = ctx.call("update_signature", &case, None, || Ok::<_, ()>(bsig.update_signature(Some(&rm2), &c, st.sk(), st.pk(), &bases, Some(&ri))));
+            match up.value {
+                Some(b2) => {
+                    let s2 = b2.unblind_sign(&run.commitment);
+                    let mut m2 = msgs.clone();
+                    m2[ri[k]] = rm2[k].clone();
+                    if !s2.verify_multiattr(st.pk(), &bases, &m2) {
+                        ctx.violation("C14:updated-signature-rejected", json!({"case":case}));
+                    }
+                    if s2.verify_multiattr(st.pk(), &bases, &msgs) {
+                        ctx.violation("C14:updated-signature-valid-for-old-vector", json!({"case":case}));
+                    }
+                    if let Some(s) = &sig {
+                        if s.verify_multiattr(st.pk(), &bases, &m2) {
+                            ctx.violation("C14:old-signature-valid-for-updated-vector", json!({"case":case}));
+                        }
+                    }
+                }
+                None => ctx.violation("C14:update_signature-panicked", json!({"case":case})),
+            }
+        }
+    }
+    // ---------------- negative: the issuer does not sign on mismatches
+    let refuse = |kind: &str, zk: &Zk<C>, cc: &CL03Commitment, uu: &[usize], also_sign: bool| {
+        let full = format!("{}/{}", case, kind);
+        ctx.distinct(&full);
+        let v = ctx.call("ZKPoK::verify_proof", &full, None, || Ok::<_, ()>(run.verify(zk, cc, uu)));
+        if v.value == Some(true) {
+            ctx.violation(&format!("C14:mismatch-accepted/{}", kind.split('#').next().unwrap()), json!({"case":full}));
+        }
+        if v.outcome.is_panic() {
+            ctx.count("verify_proof_panics(counted as not verifying)", 1);
+        }
+        if also_sign {
+            let b = ctx.call("blind_sign", &full, None, || Ok::<_, ()>(run.blind_sign(zk, cc, uu)));
+            if b.value.is_some() {
+                ctx.violation(&format!("C14:issuer-signed-on-mismatch/{}", kind.split('#').next().unwrap()), json!({"case":full}));
+            }
+        }
+    };
+    // commitment to other attributes
+    let mut m2 = msgs.clone();
+    m2[u[0]].value = Integer::from(&m2[u[0]].value ^ 1u32);
+    let c2 = Commitment::<CL03<C>>::commit_with_pk(&m2, st.pk(), &bases, Some(&u));
+    refuse("commitment-to-other-attributes", &run.zk, c2.cl03Commitment(), &u, true);
+    let mut c3 = c.clone();
+    c3.value = Integer::from(&c3.value + 1u32);
+    refuse("commitment-value+1", &run.zk, &c3, &u, true);
+    // other hidden sets
+    for u2 in subsets_nonempty(n) {
+        if u2 != u {
+            refuse(&format!("other-hidden-set#{:?}", u2), &run.zk, &c, &u2, u2.len() == u.len());
+        }
+    }
+    // other bases / pk
+    {
+        let full = format!("{}/other-bases", case);
+        ctx.distinct(&full);
+        let mut b2 = bases.clone();
+        b2.0.rotate_left(1);
+        if n == 1 {
+            b2 = zkryptium::cl03::bases::Bases::generate(st.pk(), 1);
+        }
+        let v = ctx.call("ZKPoK::verify_proof", &full, None, || Ok::<_, ()>(run.zk.verify_proof(&c, run.trusted.as_ref().map(|t| &t.0), st.pk(), &b2, run.trusted.as_ref().map(|t| t.1), &u)));
+        if v.value == Some(true) {
+            ctx.violation("C14:mismatch-accepted/other-bases", json!({"case":full}));
+        }
+        let mut pk2 = st.pk().clone();
+        std::mem::swap(&mut pk2.b, &mut pk2.c);
+        let full = format!("{}/other-pk", case);
+        ctx.distinct(&full);
+        let v = ctx.call("ZKPoK::verify_proof", &full, None, || Ok::<_, ()>(run.zk.verify_proof(&c, run.trusted.as_ref().map(|t| &t.0), &pk2, &bases, run.trusted.as_ref().map(|t| t.1), &u)));
+        if v.value == Some(true) {
+            ctx.violation("C14:mismatch-accepted/other-pk", json!({"case":full}));
+        }
+    }
+    // other trusted commitment
+    if let Some((tc, ck)) = &run.trusted {
+        let other_t = Commitment::<CL03<C>>::commit_with_commitment_pk(&m2, ck, Some(&u)).cl03Commitment().clone();
+        let full = format!("{}/other-trusted-commitment", case);
+        ctx.distinct(&full);
+        let v = ctx.call("ZKPoK::verify_proof", &full, None, || Ok::<_, ()>(run.zk.verify_proof(&c, Some(&other_t), st.pk(), &bases, Some(ck), &u)));
+        if v.value == Some(true) {
+            ctx.violation("C14:mismatch-accepted/other-trusted-commitment", json!({"case":full}));
+        }
+        let _ = tc;
+    }
+    // field-wise edits of the serialized ZKPoK
+    if tamper {
+        let j = serde_json::to_value(&run.zk).unwrap();
+        let variants = tampered_variants(&j, r, ctx.t(60, 400));
+        ctx.count("zkpok_leaves", leaves(&j).len() as u64);
+        ctx.count("zkpok_tampered_variants", variants.len() as u64);
+        let sign_every = ctx.t(40, 10);
+        let items: Vec<(usize, &(String, String, Value))> = variants.iter().enumerate().collect();
+        par_for_each(&items, 8, |(k, (kind, path, j2))| {
+            let cls = path_class(path);
+            let full = format!("{}/tamper/{}/{}", case, kind, path);
+            ctx.distinct(&format!("{}/tamper/{}/{}", C::NAME, kind, cls));
+            let Ok(zk2) = serde_json::from_value::<Zk<C>>(j2.clone()) else {
+                ctx.count("tampered_json_not_deserializable", 1);
+                return;
+            };
+            let v = ctx.call("ZKPoK::verify_proof", &full, None, || Ok::<_, ()>(run.verify(&zk2, &c, &u)));
+            if v.value == Some(true) {
+                ctx.violation(&format!("C14:tampered-proof-accepted/{}", cls), json!({"case":full,"edit":kind,"leaf":path}));
+                if k % sign_every == 0 {
+                    ctx.count("blind_sign_on_tampered_proofs", 1);
+                }
+            } else if k % sign_every == 0 {
+                let b = ctx.call("blind_sign", &full, None, || Ok::<_, ()>(run.blind_sign(&zk2, &c, &u)));
+                ctx.count("blind_sign_on_tampered_proofs", 1);
+                if b.value.is_some() {
+                    ctx.violation(&format!("C14:issuer-signed-tampered-proof/{}", cls), json!({"case":full}));
+                }
+            }
+        });
+    }
+    ctx.sample(json!({"case":case,"hidden":u,"n":n,"trusted_commitment":own.is_some(),"verify_proof":true,"unblinded_signature_verifies":true,"tampered":tamper}));
+}
+
+fn run<C: Cs>(ctx: &Ctx, idx: u64, nmax: usize, with_trusted: bool) {
+    let mut r = ctx.rng("c14", idx);
+    let Some(st) = Setup::<C>::new(ctx, nmax) else {
+        ctx.inconclusive("C14: key generation panicked (C18's business)");
+        return;
+    };
+    let own = if with_trusted {
+        ctx.call("CommitmentPublicKey::generate(own N)", "setup", None, || Ok::<_, ()>(CL03CommitmentPublicKey::generate::<C>(None, Some(nmax)))).value
+    } else {
+        None
+    };
+    for n in 1..=nmax {
+        for (k, u) in subsets_nonempty(n).into_iter().enumerate() {
+            // tamper every field of a few selected proofs
+            let tamper = (n == 2 && u == vec![1]) || (n == 3 && u == vec![0, 2]) || (!ctx.quick() && k % 5 == 0);
+            issuance::<C>(ctx, &st, None, &mut r, n, u.clone(), tamper && !with_trusted);
+            if let Some(ck) = &own {
+                let ckn = CL03CommitmentPublicKey { N: ck.N.clone(), h: ck.h.clone(), g_bases: ck.g_bases[..n].to_vec() };
+                issuance::<C>(ctx, &st, Some(&ckn), &mut r, n, u, tamper);
+            }
+        }
+    }
+}
+
+pub fn scenarios(ctx: &Ctx) -> Vec<Scenario> {
+    use zkryptium::cl03::ciphersuites::{CL1024Sha256, CL2048Sha256};
+    let mut v = Vec::new();
+    let nmax = ctx.t(3usize, 5usize);
+    if !ctx.quick() {
+        v.push(scenario("CL2048/plain", move |c| run::<CL2048Sha256>(c, 200, 3, false)));
+    }
+    v.push(scenario("CL1024/trusted", move |c| run::<CL1024Sha256>(c, 1, nmax, true)));
+    v.push(scenario("CL1024/plain", move |c| run::<CL1024Sha256>(c, 2, nmax, false)));
+    if !ctx.quick() {
+        v.push(scenario("CL1024/plain-2", move |c| run::<CL1024Sha256>(c, 3, 4, false)));
+        v.push(scenario("CL1024/trusted-2", move |c| run::<CL1024Sha256>(c, 4, 4, true)));
+    }
+    v
+}
